@@ -291,3 +291,52 @@ def _gen_get_path(rng):
 
 
 get_path.gen = _gen_get_path
+
+
+def _dict_zip_leaves_range(engine, st, args, node, kwargs):
+    """dict(zip(self.gen_leaves(), range(self.N))): leaf p -> p."""
+    lv = engine.external(st, "ContractionTree.gen_leaves", [st.vars["self"]], node)
+    N = engine.num(engine.deref(st, st.vars["self"]).fields["N"])
+    k, p = _z3.Int("dz!k"), _z3.Int("dz!p")
+    n = _z3.If(lv.c[0] < N, lv.c[0], N)
+    dom = _z3.Lambda([k], _z3.Exists([p], _z3.And(0 <= p, p < n, lv.c[1][p] == k)))
+    pos = _z3.Function("dz!posr", Ty.IntS, Ty.IntS)
+    st.assume(_z3.ForAll([p], _z3.Implies(_z3.And(0 <= p, p < n), pos(lv.c[1][p]) == p)))
+    return engine.alloc(st, _V(NidT, [dom, _z3.Lambda([k], pos(k))]))
+
+
+_dict_zip_leaves_range.raw = True
+
+get_ssa_path = Contract(
+    target="cotengra.core:ContractionTree.get_ssa_path",
+    props=["C10", "C05"],
+    self_type=TreePT,
+    params={},
+    ghost=get_path.ghost,
+    lets=get_path.lets,
+    externals={**get_path.externals, "dict": _dict_zip_leaves_range},
+    requires=get_path.requires,
+    returns=PathT,
+    hints={"ssa_path": PathT},
+    ensures=[
+        "len(result) == n",
+        # step t contracts exactly the ids of the two children, smaller id first;
+        # the t-th parent gets id N + t (so children are listed before parents)
+        "forall(0, n, lambda t: result[t][0] == min(nid[TR[t][1]], nid[TR[t][2]]) and result[t][1] == max(nid[TR[t][1]], nid[TR[t][2]]))",
+        "forall(0, n, lambda t: 0 <= result[t][0] and result[t][0] < result[t][1] and result[t][1] < N + t)",
+    ],
+    nloops=1,
+    loops={
+        0: Loop(
+            pos="t",
+            inv=[
+                "len(ssa_path) == t",
+                "forall(0, t, lambda u: ssa_path[u][0] == min(nid[TR[u][1]], nid[TR[u][2]]) and ssa_path[u][1] == max(nid[TR[u][1]], nid[TR[u][2]]))",
+                "forall(keys(nid), lambda x: implies(0 <= nid[x] and nid[x] < N + t, x in pos and pos[x] == nid[x]))",
+            ],
+        )
+    },
+    assumptions=get_path.assumptions,
+)
+get_ssa_path.gen = _gen_get_path
+CONTRACTS.append(get_ssa_path)
